@@ -9,6 +9,7 @@ import (
 	"math"
 	"math/rand"
 	"os"
+	"reflect"
 	"runtime/debug"
 	"strings"
 )
@@ -156,9 +157,65 @@ func vIteI(c bool, a, b int) int {
 	}
 	return b
 }
-func vSymbolic() bool                 { return false }
-func vDisjoint(a, b interface{}) bool { return true } // decided by the engine only
-func vNondetCount() int               { return 0 }
+func vSymbolic() bool { return false }
+
+// vDisjoint natively: no heap address (pointer target, slice backing array, map) is reachable from both values
+func vDisjoint(a, b interface{}) bool {
+	sa, sb := map[uintptr]bool{}, map[uintptr]bool{}
+	vCollect(reflect.ValueOf(a), sa, 0)
+	vCollect(reflect.ValueOf(b), sb, 0)
+	for p := range sa {
+		if sb[p] {
+			return false
+		}
+	}
+	return true
+}
+
+func vCollect(v reflect.Value, seen map[uintptr]bool, depth int) {
+	if !v.IsValid() || depth > 200 {
+		return
+	}
+	switch v.Kind() {
+	case reflect.Ptr:
+		if v.IsNil() || seen[v.Pointer()] {
+			return
+		}
+		seen[v.Pointer()] = true
+		vCollect(v.Elem(), seen, depth+1)
+	case reflect.Interface:
+		if !v.IsNil() {
+			vCollect(v.Elem(), seen, depth+1)
+		}
+	case reflect.Slice:
+		if v.IsNil() || v.Cap() == 0 {
+			return
+		}
+		seen[v.Pointer()] = true
+		for i := 0; i < v.Len(); i++ {
+			vCollect(v.Index(i), seen, depth+1)
+		}
+	case reflect.Array:
+		for i := 0; i < v.Len(); i++ {
+			vCollect(v.Index(i), seen, depth+1)
+		}
+	case reflect.Struct:
+		for i := 0; i < v.NumField(); i++ {
+			vCollect(v.Field(i), seen, depth+1)
+		}
+	case reflect.Map:
+		if v.IsNil() || seen[v.Pointer()] {
+			return
+		}
+		seen[v.Pointer()] = true
+		it := v.MapRange()
+		for it.Next() {
+			vCollect(it.Key(), seen, depth+1)
+			vCollect(it.Value(), seen, depth+1)
+		}
+	}
+}
+func vNondetCount() int { return 0 }
 
 // vRandUnscripted: in harnesses whose native run executes real code that the engine replaced by a stub
 // (cross-package redirects), math/rand draws that the script does not contain get fixed default values.
